@@ -608,3 +608,105 @@ M.contract(P_SVN + ':SdvValidatorFromDdvValidator.validate_pre_sds_if_applicable
                         (environment.hds,))]
                    and _outcome(trace, 'pre') == ('returned', result)},
            raises={ArbitraryException: {}}, raises_only=())
+
+
+# ----- more adapters
+
+class TcdsI(Interface):
+    attrs = {'hds': Any_, 'sds': Any_}
+
+
+M.contract(P_DV + ':FixedPreOrPostSdsValidator.validate_pre_sds_if_applicable',
+           params=dict(self=Inst(ddv_validators.FixedPreOrPostSdsValidator, _tcds=Iface(TcdsI),
+                                 _validator=Iface(ValidatorI))), returns=Opt(Any_),
+           ensures={'runs exactly the pre-sds part of what it wraps, on the home directories': lambda self, trace:
+           [(e[0], e[1], e[2]) for e in _all_validation_calls(trace)] == [('validate-pre', self._validator,
+                                                                           (self._tcds.hds,))],
+                    'gives its verdict': lambda result, trace: _outcome(trace, 'pre') == ('returned', result)},
+           raises={ArbitraryException: {}}, raises_only=())
+M.contract(P_DV + ':FixedPreOrPostSdsValidator.validate_post_sds_if_applicable',
+           params=dict(self=Inst(ddv_validators.FixedPreOrPostSdsValidator, _tcds=Iface(TcdsI),
+                                 _validator=Iface(ValidatorI))), returns=Opt(Any_),
+           ensures={'runs exactly the post-sds part of what it wraps': lambda self, trace:
+           [(e[0], e[1], e[2]) for e in _all_validation_calls(trace)] == [('validate-post', self._validator,
+                                                                           (self._tcds,))],
+                    'gives its verdict': lambda result, trace: _outcome(trace, 'post') == ('returned', result)},
+           raises={ArbitraryException: {}}, raises_only=())
+
+
+# validators that report through exceptions (SvhValidationException / SvhHardErrorException)
+
+def _mk_svh_validation_exception(interp, o):
+    e = svh_exception.SvhValidationException.__new__(svh_exception.SvhValidationException)
+    e._err_msg = Any_.make(interp, 'svh_exception.err_msg')
+    return e
+
+
+def _mk_svh_hard_error_exception(interp, o):
+    e = svh_exception.SvhHardErrorException.__new__(svh_exception.SvhHardErrorException)
+    e._err_msg = Any_.make(interp, 'svh_exception.err_msg')
+    return e
+
+
+_SVH_RAISES = (_mk_svh_validation_exception, _mk_svh_hard_error_exception, _mk_arbitrary)
+
+
+class ValidatorViaExceptionsI(Interface):
+    target_class = svh_validators.SvhValidatorViaExceptions
+    methods = {'validate_pre_sds': Method(may_raise=_SVH_RAISES, event='x-validate-pre'),
+               'validate_post_setup': Method(may_raise=_SVH_RAISES, event='x-validate-post')}
+
+
+def _x_calls(trace):
+    return [(e[0], e[1], e[2]) for e in trace if e[0] in ('x-validate-pre', 'x-validate-post')]
+
+
+def _x_raised(trace):
+    r = [e for e in trace if e[0].endswith(':raised')]
+    return r[0][2] if r else None
+
+
+for _method, _xmethod, _event in (('validate_pre_sds_if_applicable', 'validate_pre_sds', 'x-validate-pre'),
+                                  ('validate_post_sds_if_applicable', 'validate_post_setup', 'x-validate-post')):
+    M.contract('%s:SdvValidatorFromSdvValidatorViaExceptions.%s' % (P_SVH, _method),
+               params=dict(self=Inst(svh_validators.SdvValidatorFromSdvValidatorViaExceptions,
+                                     _adapted=Iface(ValidatorViaExceptionsI)), environment=Iface(PathEnvI)),
+               ghosts=dict(event=Const(_event)), returns=Opt(Any_),
+               ensures={
+                   'runs exactly that part of what it adapts': lambda self, environment, event, trace:
+                   _x_calls(trace) == [(event, self._adapted, (environment,))],
+                   'the message of an SvhException is the error, no exception is success': lambda result, trace:
+                   result is (None if _x_raised(trace) is None else _x_raised(trace).err_msg),
+               },
+               raises={ArbitraryException: {}}, raises_only=())
+    M.contract('%s:SvhValidatorViaReturnValuesFromValidatorViaExceptions.%s' % (P_SVH, _xmethod),
+               params=dict(self=Inst(svh_validators.SvhValidatorViaReturnValuesFromValidatorViaExceptions,
+                                     _adapted=Iface(ValidatorViaExceptionsI)), environment=Iface(PathEnvI)),
+               ghosts=dict(event=Const(_event)), returns=c01.SVH,
+               ensures={
+                   'runs exactly that part of what it adapts': lambda self, environment, event, trace:
+                   _x_calls(trace) == [(event, self._adapted, (environment,))],
+                   'validation exception: VALIDATION_ERROR, hard error exception: HARD_ERROR, none: success':
+                       lambda result, trace:
+                       c01.svh_kind(result) == (None if _x_raised(trace) is None else
+                                                'VALIDATION_ERROR' if isinstance(_x_raised(trace),
+                                                                                 svh_exception.SvhValidationException)
+                                                else 'HARD_ERROR')
+                       and (_x_raised(trace) is None or result.failure_message is _x_raised(trace).err_msg),
+               },
+               raises={ArbitraryException: {}}, raises_only=())
+    M.contract('%s:SvhValidatorViaExceptionsFromPreAndPostSdsValidators.%s' % (P_SVH, _xmethod),
+               params=dict(self=Inst(svh_validators.SvhValidatorViaExceptionsFromPreAndPostSdsValidators,
+                                     _pre_sds=Opt(Iface(ValidatorViaExceptionsI)),
+                                     _post_setup=Opt(Iface(ValidatorViaExceptionsI))), environment=Iface(PathEnvI)),
+               ghosts=dict(event=Const(_event)),
+               ensures={
+                   'runs its validator of that step, if it has one, and nothing of the other step':
+                       lambda self, environment, event, trace:
+                       _x_calls(trace) == ([] if (self._pre_sds if event == 'x-validate-pre' else self._post_setup) is None
+                                           else [(event, self._pre_sds if event == 'x-validate-pre' else self._post_setup,
+                                                  (environment,))]),
+               },
+               raises={svh_exception.SvhValidationException: {}, svh_exception.SvhHardErrorException: {},
+                       ArbitraryException: {}},
+               raises_only=())
